@@ -428,9 +428,16 @@ def contains(I, container, item, node=None, frame=None):
 def _match_key(I, keys, item):
     """fork over the keys of a dict for a symbolic lookup key; index of the matching key or None"""
     conds = []
+    it_term = _numeric_term(item)
     for k in keys:
         if k is item:
             return keys.index(k)
+        if it_term is not None:
+            kt = _numeric_const(k)
+            if kt is not None:
+                # lemma C16/OPS (eq): a numeric-emulating value equals k iff the integers are equal
+                conds.append(z3.simplify(it_term == kt))
+                continue
         r = yield from I.rich_compare("eq", item, k)
         if isinstance(r, SBool):
             conds.append(r.t)
@@ -451,6 +458,44 @@ def _match_key(I, keys, item):
     if i == len(keys):
         return None
     return i
+
+
+def _is_numeric_emulation(obj):
+    eq = type(obj).__dict__.get("__eq__") or next((k.__dict__["__eq__"] for k in type(obj).__mro__ if "__eq__" in k.__dict__), None)
+    return getattr(eq, "__qualname__", "") == "numeric.<locals>.__eq__"
+
+
+def _numeric_term(item):
+    if isinstance(item, (SInt,)):
+        return item.t
+    if isinstance(item, Sym) or item is None or isinstance(item, (str, bytes, type)):
+        return None
+    if _is_numeric_emulation(item):
+        v = getattr(item, "__dict__", {}).get("_value")
+        d = 0
+        while v is not None and not isinstance(v, (SInt, int)) and d < 4:
+            v = getattr(v, "_value", None)
+            d += 1
+        if isinstance(v, SInt):
+            return v.t
+        if isinstance(v, int) and not isinstance(v, bool):
+            return z3.IntVal(v)
+    return None
+
+
+def _numeric_const(k):
+    if isinstance(k, bool):
+        return None
+    if isinstance(k, int):
+        return z3.IntVal(k)
+    if k is None or isinstance(k, (str, bytes, type, Sym)):
+        return None
+    if _is_numeric_emulation(k):
+        try:
+            return z3.IntVal(int(k))
+        except Exception:
+            return None
+    return None
 
 
 def subscript(I, obj, key, node=None, frame=None):
